@@ -1165,3 +1165,47 @@ mod tests {
         assert!(a.gradient().is_some());
     }
 }
+
+// Read-only verification probes (compiled only under `--cfg kani` / `--cfg corgi_verif`).
+#[cfg(any(kani, corgi_verif))]
+#[allow(missing_docs)]
+impl Array {
+    /// The number of consumers still expected to contribute during a backward pass.
+    pub fn verif_consumer_count(&self) -> usize {
+        self.consumer_count.get()
+    }
+
+    /// Whether a partial adjoint is pending on the node.
+    pub fn verif_has_pending_delta(&self) -> bool {
+        let delta = self.delta.take();
+        let pending = delta.is_some();
+        self.delta.set(delta);
+        pending
+    }
+
+    /// The flags `(is_tracked, keep_gradient)` of this handle.
+    pub fn verif_flags(&self) -> (bool, bool) {
+        (self.is_tracked.get(), self.keep_gradient.get())
+    }
+
+    /// The operands recorded for the node.
+    pub fn verif_children(&self) -> &[Array] {
+        &self.children
+    }
+
+    /// The number of owners of the value buffer.
+    pub fn verif_values_owners(&self) -> usize {
+        Rc::strong_count(&self.values)
+    }
+
+    /// The number of owners of the operand list.
+    pub fn verif_children_owners(&self) -> usize {
+        Rc::strong_count(&self.children)
+    }
+}
+
+/// Forwards to the private broadcast shape rule.
+#[cfg(any(kani, corgi_verif))]
+pub fn verif_element_wise_dimensions(x: &[usize], y: &[usize]) -> Vec<usize> {
+    element_wise_dimensions(x, y)
+}
